@@ -21,10 +21,12 @@ FULL = dict(Paths={"single", "multi", "figure"}, Strats=STRATS, HdrModes={"defau
 REDUCED = {"quick": dict(Paths={"single", "multi", "figure"}, Strats={"plain", "subpb", "groupby"}, HdrModes={"default", "off"}, NSet={0, 5}, MSet={2}, BoolSet=B,
                          PlaceSet={"all"}, FootSet={"none", "table"}, HFSet={True}, PaperSet={"letter"}, NrowSet={3}, ShapeSet={"matrix", "recycle"}, SizeSet={"int", "half"},
                          KindSet={"null", "astral"}, ContigSet=B, KeyTypeSet={"str"}, SeqSet={"list"}, PriorSet={"none"}),
+           # (about 5 x the quick product: one more strategy, header mode and footnote kind; the first thorough attempt
+           #  multiplied every dimension and produced more than a million documents)
            "thorough": dict(Paths={"single", "multi", "figure"}, Strats={"plain", "subpb", "groupby", "pageby"}, HdrModes={"default", "off", "multi"}, NSet={0, 5}, MSet={2}, BoolSet=B,
-                            PlaceSet={"first", "all"}, FootSet={"none", "table", "para"}, HFSet=B, PaperSet={"letter"}, NrowSet={3}, ShapeSet={"matrix"},
-                            SizeSet={"int", "half"}, KindSet={"null", "field"}, ContigSet=B, KeyTypeSet={"str", "int"}, SeqSet={"list", "tuple"}, PriorSet={"none"})}
-PLAN = {"quick": dict(sim=500), "thorough": dict(sim=30000)}
+                            PlaceSet={"all"}, FootSet={"none", "table", "para"}, HFSet={True}, PaperSet={"letter"}, NrowSet={3}, ShapeSet={"matrix", "recycle"},
+                            SizeSet={"int", "half"}, KindSet={"null", "astral"}, ContigSet=B, KeyTypeSet={"str"}, SeqSet={"list"}, PriorSet={"none"})}
+PLAN = {"quick": dict(sim=500), "thorough": dict(sim=12000)}
 
 
 def _validate(ctx, work, recs):
